@@ -18,5 +18,10 @@ func (mp *Multiperiod) Setup(cmd *cobra.Command) {
 }
 
 func (mp *Multiperiod) Partition(clip date.Period) date.Partition {
-	return date.NewPartition(mp.period.Value().Clip(clip), mp.interval.Value(), mp.last)
+	period := mp.period.Value()
+	if period.Start.IsZero() {
+		// no start given: the period starts with the journal, however old it is
+		period.Start = clip.Start
+	}
+	return date.NewPartition(period.Clip(clip), mp.interval.Value(), mp.last)
 }
